@@ -62,7 +62,8 @@ type KnownFinding struct {
 	Property string          `json:"property"`
 	Status   string          `json:"status"` // "known" or "fixed"
 	Key      string          `json:"key"`    // regexp matched against the violation key
-	Sub      string          `json:"sub,omitempty"`
+	Sub      string          `json:"sub,omitempty"`     // sub-property the witness belongs to (and, unless AnySub, the only one matched)
+	AnySub   bool            `json:"any_sub,omitempty"` // match the key in every sub-property
 	What     string          `json:"what"`
 	Commit   string          `json:"commit,omitempty"`
 	Witness  json.RawMessage `json:"witness,omitempty"` // descriptor that must still fail (known only)
@@ -226,10 +227,25 @@ func hash64(b []byte) uint64 {
 	return h.Sum64()
 }
 
+// HitKnown lets an evaluator that continues past a known finding (so that the
+// search goes on behind it) count the exclusion. It returns true when key is a
+// listed known finding.
+func (r *Run) HitKnown(sub, key string) bool {
+	r.mu.Lock()
+	defer r.mu.Unlock()
+	k := r.IsKnown(sub, key)
+	if k == nil {
+		return false
+	}
+	r.knownSeen[k.Key]++
+	r.sub(sub).Excluded++
+	return true
+}
+
 // IsKnown reports whether key matches a recorded known finding for this property.
 func (r *Run) IsKnown(sub, key string) *KnownFinding {
 	for _, k := range r.known {
-		if k.Sub != "" && k.Sub != sub {
+		if k.Sub != "" && k.Sub != sub && !k.AnySub {
 			continue
 		}
 		if k.re.MatchString(key) {
